@@ -8,8 +8,19 @@ PROPS = ["MagpyVerif.Props.C05"] + _sym.PROPS
 NOT_SHOWN = {
  "03": ["full getBH pipeline covariance with Sensor observers (proved for position observers; sensors are C04)"],
  "04": ["pixel_agg reductions other than sum/min/max (mean, median, std, ...) are not modelled; the theorem holds for any reduction function of the pixel list, the stream exercises sum/min/max"],
- "05": ["linearity of the TriangularMesh kernel in its excitation (not ported to the real carrier; oracle only); proved: the marshalling "
-        "preserves linearity for any F, and the Dipole, Sphere (C12), segment, Circle, Cuboid, Triangle, Tetrahedron kernels are linear",
+ "05": ["TriangularMesh: linearity in the polarization vector IS proved for the modelled BHJM_magnet_trimesh (c03post, `trimesh_linear_in_polarization`: B, H, J, M, "
+        "in_out='auto' with the inside term; per row of any batch -- different meshes, face counts, repeated meshes, different polarizations per row -- via "
+        "C13.trimesh_is_wrapH_of_sheets, triangleB_linear per sheet and wrapH_linear; the inside verdict is a function of mesh identity and observer, hence "
+        "independent of the polarization as long as the grouping key does not look at it, hypothesis `hid`, met by the code's comparison of the mesh arrays). "
+        "NOT shown: the ray-casting inside test itself is a parameter here (its own properties are C16 / C02 trimesh_ray_test_*); in_out='inside' / 'outside' "
+        "(keyword handling is C02 inout_*); float rounding. Also proved: the marshalling preserves linearity for any F, and the Dipole, Sphere (C12), segment, "
+        "Circle, Cuboid, Triangle, Tetrahedron kernels are linear",
+        "sumup and pixel_agg (c03post): the code sums over the source axis AFTER rotation / flip AND after pixel_agg. Proved for any reduction: "
+        "`sumup_after_eq_sum_before` (flat element j of sumup=True = sum over entries of element l*N + j of sumup=False), `sumup_commutes_with_sensor_frame` "
+        "(no pixel_agg: = reading of ONE compound source of all entries), `sumup_of_pixel_agg_is_sum_of_aggregates` (what the code returns with a pixel_agg: "
+        "sum over entries of f(readings of the entry)), `sumup_commutes_with_additive_pixel_agg` (additive f, e.g. sum / mean: = f(readings of the compound)), "
+        "and the witness `sum_of_max_ne_max_of_sum` (max: (1,0,0) vs (0,0,0)): for non-linear reductions sumup is NOT the aggregate of the summed field, "
+        "by design of the code; whether that is the intended meaning of sumup + pixel_agg is not decided here (the docstrings do not say)",
         "CylinderSegment: full linearity in the polarization VECTOR of all four outputs of the ported BHJM_cylinder_segment IS proved (`cylseg_linear_in_magnetization`: 129 case functions "
         "each linear in the unit vector, statements generated from the source's parameter lists (Lemmas/KernCylSegLinGen.lean, kept in sync by cylseg_lin_in_sync), the code's "
         "arctan2-conversion proved a right inverse of spherical->Cartesian for every vector); ellipkinc / ellipeinc / el3_angle are opaque functions (they never see the magnetization "
